@@ -1229,6 +1229,27 @@ class GattServer(GattLayer):
         '''
         super().configure(options)
 
+    def read_access_error(self, charac):
+        '''Check that the value of a characteristic can be read over the
+        current link (security requirements, then READ property).
+
+        :param Characteristic charac: Characteristic to check
+        :return: ATT error code to answer with, `None` if access is allowed
+        '''
+        conn_handle = self.get_layer('l2cap').get_conn_handle()
+        if charac.check_security_property(ReadAccess, Authentication):
+            if not self.get_layer('ll').state.is_authenticated(conn_handle):
+                return BleAttErrorCode.INSUFFICIENT_AUTHENT
+        if charac.check_security_property(ReadAccess, Encryption):
+            if not self.get_layer('ll').state.is_encrypted(conn_handle):
+                return BleAttErrorCode.INSUFFICIENT_ENCRYPTION
+        if charac.check_security_property(ReadAccess, Authorization):
+            # TODO: not supported for now
+            return BleAttErrorCode.INSUFFICIENT_AUTHOR
+        if not charac.readable():
+            return BleAttErrorCode.READ_NOT_PERMITTED
+        return None
+
 
     ###################################
     # Supported response handlers
@@ -1638,51 +1659,30 @@ class GattServer(GattLayer):
             # Search attribute by handle and send response
             attr = self.server_model.find_object_by_handle(request.handle)
 
-            if request.offset < len(attr.value):
+            # If attribute is a characteristic value, make sure it is readable
+            # before anything (its length included) is disclosed.
+            if isinstance(attr, CharacteristicValue):
+                charac = self.server_model.find_object_by_handle(request.handle - 1)
+                service = self.server_model.find_service_by_characteristic_handle(charac.handle)
+                access_error = self.read_access_error(charac)
+                if access_error is not None:
+                    self.error(
+                        BleAttOpcode.READ_BLOB_REQUEST,
+                        request.handle,
+                        access_error
+                    )
+                    return
+                attr_value = attr.value
+            elif isinstance(attr, Descriptor):
+                attr_value = attr.value
+            else:
+                # Service, include or characteristic declaration
+                attr_value = attr.payload()
 
-                # If attribute is a characteristic, make sure it is readable
-                # before returning a value.
+            if request.offset < len(attr_value):
+
                 if isinstance(attr, CharacteristicValue):
                     try:
-                        charac = self.server_model.find_object_by_handle(request.handle - 1)
-                        service = self.server_model.find_service_by_characteristic_handle(charac.handle)
-
-                        conn_handle = self.get_layer('l2cap').get_conn_handle()
-                        if charac.check_security_property(ReadAccess, Authentication):
-                            print("[i] authentication required for read access !")
-                            if not self.get_layer('ll').state.is_authenticated(conn_handle):
-                                self.error(
-                                    BleAttOpcode.READ_BLOB_REQUEST,
-                                    request.handle,
-                                    BleAttErrorCode.INSUFFICIENT_AUTHENT
-                                )
-                                return
-                        if charac.check_security_property(ReadAccess, Encryption):
-                            print("[i] encryption required for read access !")
-                            if not self.get_layer('ll').state.is_encrypted(conn_handle):
-                                self.error(
-                                    BleAttOpcode.READ_BLOB_REQUEST,
-                                    request.handle,
-                                    BleAttErrorCode.INSUFFICIENT_ENCRYPTION
-                                )
-                                return
-                        if charac.check_security_property(ReadAccess, Authorization):
-                            print("[i] authorization required for read access !")
-                            # TODO: not supported for now
-                            self.error(
-                                BleAttOpcode.READ_BLOB_REQUEST,
-                                request.handle,
-                                BleAttErrorCode.INSUFFICIENT_AUTHOR
-                            )
-                            return
-                        if not charac.readable():
-                            self.error(
-                                BleAttOpcode.READ_BLOB_REQUEST,
-                                request.handle,
-                                BleAttErrorCode.READ_NOT_PERMITTED
-                            )
-                            return
-
                         # Call our characteristic read hook
                         self.server_model.on_characteristic_read(
                             service,
@@ -1735,12 +1735,12 @@ class GattServer(GattLayer):
                             gatt_error.handle if gatt_error.handle is not None else request.handle,
                             gatt_error.error if gatt_error.error is not None else BleAttErrorCode.ATTRIBUTE_NOT_FOUND
                         )
-                elif isinstance(attr, Descriptor):
-                    # Valid offset, return data[offset:offset + MTU - 1]
+                else:
+                    # Valid offset, return data[offset:offset + MTU - 1]
                     self.att.read_blob_response(
-                        attr.value[request.offset:request.offset + local_mtu - 1]
+                        attr_value[request.offset:request.offset + local_mtu - 1]
                     )
-            elif request.offset == len(attr.value):
+            elif request.offset == len(attr_value):
                 # Special case: when offset == attribute length then return empty data
                 self.att.read_blob_response(b'')
             else:
